@@ -9,8 +9,9 @@ C10 — what a `MissingRequiredArgument` rejection reports (`ClapModel/Usage.lea
 -/
 import ClapModel
 import ClapProofs.C03Closure
+import ClapProofs.C12Usage
 namespace Clap.C10M
-open Clap Usage Validator
+open Clap Usage Validator C12U
 
 theorem pass1_spec (c : Cmd) (m : ArgMap) (pot : List (Id × List Id)) (excl : Bool) :
     ∀ (rs acc : List Id) (hi : Nat) (acc' : List Id) (hi' : Nat),
@@ -200,5 +201,126 @@ theorem error_iff_missing_nonempty (c : Cmd) (m : ArgMap) (pot : List (Id × Lis
       · have : (!e1.isEmpty || !e2.isEmpty) = true := by
           cases e1 <;> cases e2 <;> simp_all
         simp [this]
+
+/-! ### the strings of the error -/
+
+/-- where the option strings and positional slots of `get_required_usage_from` come from: an arg among the requested
+ids that was not skipped -/
+theorem argPass_origin (c : Cmd) (u : UInfo) (members : List Id) (r : Bool) (skip : Arg → Bool) :
+    ∀ (reqs : List Id) (opts : List Bytes) (pos : List (Option Bytes)) (opts' : List Bytes) (pos' : List (Option Bytes)),
+    argPass c u members r skip reqs opts pos = some (opts', pos') →
+    let P := fun (x : Bytes) => ∃ q ∈ reqs, ∃ a, c.find q = some a ∧ skip a = false ∧ x = stylized u a r
+    (∀ x ∈ opts', x ∈ opts ∨ P x) ∧ (∀ x, some x ∈ pos' → some x ∈ pos ∨ P x) := by
+  intro reqs
+  induction reqs with
+  | nil =>
+    intro opts pos opts' pos' h
+    simp only [argPass, Option.some.injEq, Prod.mk.injEq] at h
+    rw [← h.1, ← h.2]
+    exact ⟨fun x hx => Or.inl hx, fun x hx => Or.inl hx⟩
+  | cons q rest ih =>
+    intro opts pos opts' pos' h
+    have lift : ∀ x, (∃ q' ∈ rest, ∃ a, c.find q' = some a ∧ skip a = false ∧ x = stylized u a r) →
+        ∃ q' ∈ q :: rest, ∃ a, c.find q' = some a ∧ skip a = false ∧ x = stylized u a r :=
+      fun x ⟨q', hq', rest'⟩ => ⟨q', List.mem_cons_of_mem _ hq', rest'⟩
+    unfold argPass at h
+    split at h
+    · next a hf =>
+      split at h
+      · obtain ⟨h1, h2⟩ := ih opts pos opts' pos' h
+        exact ⟨fun x hx => (h1 x hx).imp id (lift x), fun x hx => (h2 x hx).imp id (lift x)⟩
+      · next hskip =>
+        have hs : skip a = false := by
+          cases hsk : skip a with
+          | false => rfl
+          | true => simp [hsk] at hskip
+        have here : ∃ q' ∈ q :: rest, ∃ a', c.find q' = some a' ∧ skip a' = false ∧ stylized u a r = stylized u a' r :=
+          ⟨q, List.mem_cons_self, a, hf, hs, rfl⟩
+        split at h
+        · obtain ⟨h1, h2⟩ := ih opts _ opts' pos' h
+          refine ⟨fun x hx => (h1 x hx).imp id (lift x), ?_⟩
+          intro x hx
+          rcases h2 x hx with hx' | hx'
+          · rcases mem_setSlot _ _ _ _ hx' with hx'' | hx''
+            · exact Or.inl hx''
+            · cases hx''; exact Or.inr here
+          · exact Or.inr (lift x hx')
+        · obtain ⟨h1, h2⟩ := ih _ pos opts' pos' h
+          refine ⟨?_, fun x hx => (h2 x hx).imp id (lift x)⟩
+          intro x hx
+          rcases h1 x hx with hx' | hx'
+          · rcases mem_setInsert.mp hx' with hx'' | hx''
+            · exact Or.inl hx''
+            · subst hx''; exact Or.inr here
+          · exact Or.inr (lift x hx')
+    · split at h
+      · obtain ⟨h1, h2⟩ := ih opts pos opts' pos' h
+        exact ⟨fun x hx => (h1 x hx).imp id (lift x), fun x hx => (h2 x hx).imp id (lift x)⟩
+      · cases h
+
+/-- **every string of a `MissingRequiredArgument` error is justified**: it is the display of a required group none of
+whose members is present, or the display (as required) of an argument among the requested ids - the required graph,
+what it requires, and the ids found missing - that is NOT explicitly present in the matches -/
+theorem requiredUsageFrom_justified (c : Cmd) (u : UInfo) (required incls : List Id) (m : ArgMap) (inclLast : Bool)
+    (ps : List Bytes) (h : requiredUsageFrom c u required incls (some m) inclLast = some ps) :
+    ∀ x ∈ ps,
+      (∃ a, a ∈ c.args ∧ m.checkExplicit a.id .isPresent = false ∧ x = stylized u a true) ∨
+      (∃ g, (c.findGroup g).isSome = true ∧ formatGroup c u g = some x) := by
+  unfold requiredUsageFrom at h
+  simp only at h
+  split at h
+  · cases h
+  · next groups members hg =>
+    split at h
+    · cases h
+    · next opts pos ha =>
+      simp only [Option.some.injEq] at h
+      subst h
+      obtain ⟨o1, o2⟩ := argPass_origin c u members true _ _ [] [] opts pos ha
+      have fromP : ∀ (L : List Id) x, (∃ q ∈ L, ∃ a, c.find q = some a ∧
+          ((m.checkExplicit a.id .isPresent || (a.index.isSome && a.last && !inclLast)) = false) ∧ x = stylized u a true) →
+          ∃ a, a ∈ c.args ∧ m.checkExplicit a.id .isPresent = false ∧ x = stylized u a true := by
+        rintro L x ⟨q, _, a, hf, hs, rfl⟩
+        simp only [Bool.or_eq_false_iff] at hs
+        exact ⟨a, (C03.find_mem hf).1, hs.1, rfl⟩
+      intro x hx
+      rcases List.mem_append.mp hx with hx | hx
+      · rcases List.mem_append.mp hx with hx | hx
+        · rcases o1 x hx with hx' | hx'
+          · cases hx'
+          · exact Or.inl (fromP _ x hx')
+        · -- a group string
+          right
+          rcases groupPass_groups c u _ _ [] [] groups members hg x hx with h0 | h0
+          · cases h0
+          · exact h0
+      · rcases o2 x (mem_filterMap_id.mp hx) with hx' | hx'
+        · cases hx'
+        · exact Or.inl (fromP _ x hx')
+
+/-- the same for the error as a whole: each string the error lists (`ContextKind::InvalidArg`) names an absent argument
+or a group -/
+theorem missingRequiredError_justified (c : Cmd) (u : UInfo) (m : ArgMap) (pot : List (Id × List Id))
+    (rs : List Bytes) (line : Bytes) (h : missingRequiredError c u m pot = some (rs, line)) :
+    ∀ x ∈ rs,
+      (∃ a, a ∈ c.args ∧ m.checkExplicit a.id .isPresent = false ∧ x = stylized u a true) ∨
+      (∃ g, (c.findGroup g).isSome = true ∧ formatGroup c u g = some x) := by
+  unfold missingRequiredError at h
+  split at h
+  · cases h
+  · next missing _ =>
+    simp only at h
+    split at h
+    · cases h
+    · next reqArgs hr =>
+      cases hl : usageWithTitle c u (requiredIds c m)
+          (((m.filter fun p => p.2.checkExplicit .isPresent).map (·.1)).filter
+            (fun n => ((c.find n).map fun a => !a.hide).getD false) ++ missing) with
+      | none => rw [hl] at h; cases h
+      | some l =>
+        rw [hl] at h
+        simp only [Option.map_some, Option.some.injEq, Prod.mk.injEq] at h
+        obtain ⟨rfl, _⟩ := h
+        exact requiredUsageFrom_justified c u _ _ m true _ hr
 
 end Clap.C10M
